@@ -73,7 +73,7 @@ def place_fn(rot: int = 0, shift=(0.0, 0.0), scale: float = 1.0):
     return pt
 
 
-def build_schematic(prog: list[dict], netlist: list[dict], naming: Naming, rot=0, shift=(0.0, 0.0), scale=1.0, split=False, order=None, gnd_name='0'):
+def build_schematic(prog: list[dict], netlist: list[dict], naming: Naming, rot=0, shift=(0.0, 0.0), scale=1.0, split=False, order=None, gnd_name='0', int_labels=0):
     """returns (schematic, names: item id -> element name, label_names: item id -> text)"""
     comp_of = {c['id']: c for c in netlist}
     pt = place_fn(rot, shift, scale)
@@ -93,6 +93,10 @@ def build_schematic(prog: list[dict], netlist: list[dict], naming: Naming, rot=0
             continue
         if k == 'label':
             label_names[iid] = LABEL_NAMES[iid % len(LABEL_NAMES)] + str(iid)
+            if int_labels:
+                # user labels that are decimal integers, consecutive - the names the parser itself hands out to unlabelled nodes
+                label_names[iid] = str(int_labels + nlabel)
+                nlabel += 1
             e = elm.LabelNode(id_loc='N', name=label_names[iid]).at(pt(it['a']))
             d += e
             placed.append((e, it, None))
